@@ -1,6 +1,6 @@
 SPECIFICATION Spec
 CONSTANTS
-  Family = "stoprace"
+  Family = "doublestart"
   MaxEm = 3
   EvPerEm = 2
   FixD3 = TRUE
@@ -14,6 +14,7 @@ INVARIANT C04_InQueueOrder
 INVARIANT C05_NoCallAfterReturn
 INVARIANT C13_RegistryIsMap
 INVARIANT C13_NoStaleHandlers
+INVARIANT C13_ScheduledWatchHasEmitter
 INVARIANT C13_EveryScheduledWatchRuns
 INVARIANT C06_AllExitedAfterJoin
 PROPERTY C04_ExactlyOnce
